@@ -199,6 +199,16 @@ def c08_space(tier):
                 for rg in regimes():
                     k2 = dict(kw, D=8 if thorough else 6, Q=3, A=(2 if rg["beyond"] == 0 else 1) if ex else 0, **rg)
                     out.append(seqjob(name("c08", k2), **k2))
+    # capacity 0 with a weigher that can return 0 (zero-weight entries are admitted into a
+    # cache of capacity 0; every ratio with max_capacity in the denominator is 0/0)
+    for kind in ("U", "S"):
+        kw = dict(kind=kind, cap=0, w=1, alpha="weights", keys=2, D=6 if thorough else 5, A=0, Q=3)
+        if kind == "S":
+            for rg in regimes():
+                k2 = dict(kw, **rg)
+                out.append(seqjob(name("c08zero", k2), **k2))
+        else:
+            out.append(seqjob(name("c08zero", kw), **kw))
     out.append({"id": "deque-4", "argv": ["dequex", "4", "40"]})
     if thorough:
         out.append({"id": "deque-6", "argv": ["dequex", "6", "60"]})
